@@ -135,7 +135,7 @@ Lemma H7_step : forall m e, H7 m -> okev m e -> H7 (mon_step m e).
 Proof.
   intros m e [C N] O. split; [|apply N7_step; assumption].
   assert (CL : forall (P : expect m = []), need_call m = false).
-  { intros P. destruct (need_call m) eqn:X; [|reflexivity]. exfalso. apply (N eq_refl). exact P. }
+  { intros P. destruct (need_call m) eqn:X; [|reflexivity]. exfalso. apply (N X). exact P. }
   destruct e; try (apply Clean_step; [apply quiet7; exact I|exact C]).
   - apply clean7_wait; [apply CL; exact O|exact C].
   - apply clean7_end; [apply CL; exact O|exact C].
